@@ -106,21 +106,48 @@ func cBlockSize(i int) uint64 {
 	return uint64(len(fmt.Sprintf("c08-block-%d-", i)) + (i*7)%40)
 }
 
+// Key families (ids >= 100): id = 100 + 10*g + v.  All members of family g carry the SAME 32 digest
+// bytes; the variants differ in CID version, codec and multihash code:
+//
+//	v0 CIDv1 raw sha2-256 | v1 CIDv1 dag-pb sha2-256 | v2 CIDv0 (dag-pb sha2-256)   -- one multihash
+//	v3 CIDv1 raw sha3-256 | v4 CIDv1 dag-cbor sha3-256                               -- another multihash
+//	v5 CIDv1 raw blake2b-256                                                         -- a third one
+//
+// The stores de-duplicate by multihash (default options): cMhKey(id) is the smallest id with the same
+// multihash (ids below 100 are one-member classes).
+func cMhKey(id int) int {
+	if id < 100 {
+		return id
+	}
+	switch v := id % 10; {
+	case v <= 2:
+		return id - v
+	case v <= 4:
+		return id - v + 3
+	default:
+		return id - v + 5
+	}
+}
+
 // cState is the abstract state of a store.  keys is never modified in place.
 type cState struct {
-	keys      []int // insertion order, no duplicates
+	keys      []int // insertion order, at most one per multihash
 	finalized bool
 	closed    bool
 	created   bool // store 2 only
 }
 
-func (s cState) has(id int) bool {
+// has: some stored block has the multihash of id
+func (s cState) has(id int) bool { return s.first(id) >= 0 }
+
+// first: the first stored block with the multihash of id (what a lookup returns), or -1
+func (s cState) first(id int) int {
 	for _, k := range s.keys {
-		if k == id {
-			return true
+		if cMhKey(k) == cMhKey(id) {
+			return k
 		}
 	}
-	return false
+	return -1
 }
 
 // put appends the ids that are not yet present, in order (copy on write).
@@ -129,7 +156,7 @@ func (s cState) put(ids []int) cState {
 	for _, id := range ids {
 		dup := s.has(id)
 		for _, f := range fresh {
-			if f == id {
+			if cMhKey(f) == cMhKey(id) {
 				dup = true
 			}
 		}
@@ -148,7 +175,7 @@ func (s cState) put(ids []int) cState {
 func (s cState) sortedKeys() []uint64 {
 	out := make([]uint64, 0, len(s.keys))
 	for _, k := range s.keys {
-		out = append(out, uint64(k))
+		out = append(out, uint64(cMhKey(k))) // listings carry the multihash only
 	}
 	sort.Slice(out, func(i, j int) bool { return out[i] < out[j] })
 	return out
@@ -214,9 +241,9 @@ func specStep(store, v1 int, st cState, op cOp) (cState, cResult) {
 				return st, cErr("notfound")
 			}
 			if op.Kind == cGet {
-				return st, cResult{Tag: rOKN, N: uint64(id)}
+				return st, cResult{Tag: rOKN, N: uint64(st.first(id))}
 			}
-			return st, cResult{Tag: rOKN, N: cBlockSize(id)}
+			return st, cResult{Tag: rOKN, N: cBlockSize(st.first(id))}
 		case cAllKeys:
 			if st.closed {
 				return st, cErr("closed")
@@ -265,7 +292,7 @@ func specStep(store, v1 int, st cState, op cOp) (cState, cResult) {
 			if !st.has(id) {
 				return st, cErr("notfound")
 			}
-			return st, cResult{Tag: rOKN, N: uint64(id)}
+			return st, cResult{Tag: rOKN, N: uint64(st.first(id))}
 		case cRoots:
 			return st, cResult{Tag: rOKN, N: 1}
 		case cFinalize:
